@@ -155,6 +155,25 @@ removeWhole = FunctionSpec(
     note="label tables of different length: the whole conflict zone of the side with the worse (or equal: the left) zone score is removed, the other segment "
          "is returned unchanged")
 
+# the same function once more with the subtraction opaque: the geometry of the cut does not need what __sub__ guarantees, and without those quantified
+# facts a wrong cut is REFUTED by the solver (a counter-model) instead of going `unknown`
+sub_opaque = FunctionSpec(
+    file=F, qualname='AlignmentSegment.__sub__', variant='opaque', params=dict(self=SEG, other=ANY), returns=SEG, trusted=True, serves=('C15',),
+    note="no claim about the result (used only where the caller's obligations do not depend on it: the geometry variant of the cut)")
+
+
+def _trim_geometry_ensures(C, res):
+    return [c for c in _trim_ensures(C, res) if c[0] in ('both_segments_are_cut_at_the_same_label_count', 'left_cut_lies_directly_before_its_own_mth_label',
+                                                         'right_cut_lies_directly_before_its_own_mth_label')]
+
+
+trim_geometry = FunctionSpec(
+    file=F, qualname='_SegmentPairWithConflict.__trimSegmentsAtOptimalPosition', variant='geometry',
+    params=dict(self=PAIRC, leftSubsegmentCharacteristics=CHAR, rightSubsegmentCharacteristics=CHAR), returns=TUPLE(SEG, SEG),
+    requires=_trim_requires, ensures=_trim_geometry_ensures, use_variant={'AlignmentSegment.__sub__': 'opaque'}, serves=('C15', 'C01', 'C04'),
+    note="the geometry of the equal-index cut alone (same label count m on both sides, each cut directly before that segment's OWN m-th label), verified with the "
+         "subtraction opaque so that a wrong cut index yields a counter-model")
+
 trim = FunctionSpec(
     file=F, qualname='_SegmentPairWithConflict.__trimSegmentsAtOptimalPosition',
     params=dict(self=PAIRC, leftSubsegmentCharacteristics=CHAR, rightSubsegmentCharacteristics=CHAR), returns=TUPLE(SEG, SEG),
@@ -364,7 +383,7 @@ resolveNoConflict = FunctionSpec(
                                                                                               res[1].ref == C.self.rightSegment.ref))],
     serves=('C15', 'C01'), note="no conflict: both segments are returned as they are")
 
-SPECS = [sub_seg, sub_list, optimalMergeIndex, removeWhole, trim, getReferenceLabels, getQueryLabels, resolveConflict, slice_, slice_partial,
+SPECS = [sub_seg, sub_list, sub_opaque, optimalMergeIndex, removeWhole, trim, trim_geometry, getReferenceLabels, getQueryLabels, resolveConflict, slice_, slice_partial,
          pair_create, checkForConflicts, checkForConflicts_empty, resolveNoConflict]
 
 
